@@ -24,6 +24,7 @@ EXPLANATION = (
     ' Round 4: every exit of GateOperation.lifted_matrix is one of the two liftings (no third embedding).'
     ' Round 5: several exits are allowed only if each hands out the threaded state; (D7) the basis-vector / bit-string helpers of the embedding as decided by C04-D5; (D8) no apply / get_wavefunction step overwrites the vector it is given (effect summaries); each lifting twin has the _lift_matrix call as its only exit; a hand-written circuit splitter never yields an empty segment.'
     ' Round 6: (D9) no anchored function reads the variable of a finished loop inside a later iteration.'
+    ' Round 7: the reduce(lambda vec, op: op.apply(vec), ops, state) spelling of the fold is recognised (D1).'
 )
 RULE_TEXT = (
     "instances = anchored functions and the call sites/expressions inside them (producer calls, accumulator "
